@@ -719,6 +719,33 @@ example : ∃ r', glweNormalize 2 exRes exA2 = .ok r' ∧ ∀ (s : List Poly) t,
         · exact ⟨[[-3, 1], [0, 0]], by decide +kernel⟩)
   exact ⟨r', h, hp⟩
 
+/-- **`glwe_normalize`, any pair of radices `1..62`, all limb counts, unconditional**: the hypothesis `hret` of
+`normalize_phase` (the kernel returns on every column) is C08's termination theorem
+(`C08.normalize_cross_terminates`), so the operation always returns `ok`, and the phase is re-expressed in the
+result's radix — exactly when `ab·as ≤ rb·rs`, within `1 + Σ‖sᵢ‖₁` units of the result's last limb otherwise.
+This is `normalize_phase_modulo_norm` / `phase_value_modulo_norm` with every hypothesis about the kernel discharged. -/
+theorem normalize_phase_total {N : Nat} {res a : GLWE} (hr : GWF N res) (ha : GWF N a) (hrank : res.rank = a.rank)
+    (hrb1 : 1 ≤ res.base2k) (hrb : res.base2k ≤ 62) (hab1 : 1 ≤ a.base2k) (hab : a.base2k ≤ 62)
+    {H : Int} (hH0 : 0 ≤ H) (hH : H + 8 ≤ 2 ^ 62) (hb : GBound H a) :
+    ∃ r', glweNormalize N res a = .ok r' ∧ Same res r' ∧ GWF N r' ∧ r'.size = res.size ∧
+      ∀ (s : List Poly) t, t < N → ∃ q e : Int,
+        2 ^ (a.base2k * a.size) * valCoeff res.base2k (phase s r') t
+          = 2 ^ (res.base2k * res.size) * valCoeff a.base2k (phase s a) t + e
+            + q * 2 ^ (res.base2k * res.size + a.base2k * a.size) ∧
+        |e| ≤ (1 + snorm (min res.rank s.length) s) * normTol (res.base2k * res.size) (a.base2k * a.size) :=
+  normalize_phase hr ha hrank hrb1 hrb hab1 hab hH0 hH hb
+    (fun i _ => NormL.normalizeCol?_exists res.base2k res.size 0 (col a i) a.base2k N hab1 hrb1)
+
+/-- radix `2^2` (two limbs) into radix `2^4` (two limbs), no evaluation of the kernel needed any more -/
+example : ∃ r', glweNormalize 2 exRes exA2 = .ok r' ∧ ∀ (s : List Poly) t, t < 2 → ∃ q e : Int,
+    2 ^ (2 * 2) * valCoeff 4 (phase s r') t = 2 ^ (4 * 2) * valCoeff 2 (phase s exA2) t + e + q * 2 ^ (4 * 2 + 2 * 2) ∧
+    |e| ≤ (1 + snorm (min 1 s.length) s) * normTol (4 * 2) (2 * 2) := by
+  obtain ⟨r', h, _, _, _, hp⟩ := normalize_phase_total (N := 2) (res := exRes) (a := exA2) (by decide) (by decide) rfl
+    (by decide) (by decide) (by decide) (by decide) (H := 2 ^ 60) (by norm_num) (by norm_num)
+    (by intro c hc l hl x hx; have : |x| ≤ 8 := by revert x l c; decide
+        exact this.trans (by norm_num))
+  exact ⟨r', h, hp⟩
+
 /-! ## GGSW operations (`operations/ggsw.rs`)
 
 A GGSW is `dnum` rows of `rank+1` GLWE cells; `GGWF N g`: `dnum·(rank+1)` well-formed cells of the GGSW's
